@@ -77,8 +77,10 @@ class BaseModel(SolverMixin, ModelInterface):
             **initial_values,
         )
 
-        self.add_attribute('endogenous', self.ENDOGENOUS)
-        self.add_attribute('check', self.CHECK)
+        # Copy the class-level lists: instances must not share (mutable) state
+        # with the class or with each other
+        self.add_attribute('endogenous', list(self.ENDOGENOUS))
+        self.add_attribute('check', list(self.CHECK))
 
         self.add_attribute('engine', engine)
 
